@@ -42,11 +42,13 @@ func (b Enforce) Apply(opt *Option, profile string) (string, error) {
 	}
 
 	flags := splitFlags(matches[1])
-	idx := slices.Index(flags, "complain")
-	if idx == -1 {
+	if !slices.Contains(flags, "complain") {
 		return profile, nil
 	}
-	flags = slices.Delete(flags, idx, idx+1)
+	// Every occurrence: a flag can be listed twice
+	flags = slices.DeleteFunc(flags, func(flag string) bool {
+		return flag == "complain"
+	})
 	// Remove all flags definition, then set new flags
 	profile = regFlags.ReplaceAllLiteralString(profile, "")
 	if len(flags) == 0 {
